@@ -73,3 +73,171 @@ Print Assumptions list_read_bounded.
 Example list_overcount :   (* declared 4294967295 items, one present: the second iteration finds no type code -> ValueError, after 2 iterations *)
   observe_list [255;255;255;255; 108;111;110;103; 0;0;0;7] = [err_code ValueErr; 2].
 Proof. vm_compute. reflexivity. Qed.
+
+(* ================================================================================================================
+   Bounded work of the REAL readers: the container model of the format builder (Psd/Model.v: header, colour mode data,
+   image resources, layer and mask information with its records / channel data / tagged blocks, image data) and its
+   payload models (Psd/Descriptor.v, Effects.v, Patterns.v, Leaf.v).  From here on the names are those of Psd/Model.v
+   (its read_header is the 26-byte reader above, field by field).                              Malformed/Cost*.v *)
+From PsdV Require Import Psd.Codec Psd.Model Psd.Leaf Psd.Descriptor Psd.Effects Psd.Patterns.
+From PsdV Require Import Malformed.CostTotal Malformed.CostTwin Malformed.CostThms Malformed.CostDescr.
+
+(* ---- 1. every item reader that runs inside a count- or budget-driven loop consumes bytes when it succeeds *)
+Theorem channel_info_progress : forall v s a s',            (* [ChannelInfo.read ... for i in range(num_channels)] *)
+  read_channel_info v s = Ok (a, s') -> (length s' + 6 <= length s)%nat.
+Proof. exact CostThms.channel_info_progress. Qed.
+Print Assumptions channel_info_progress.
+Theorem layer_record_progress : forall dec_s v s a s',      (* for _ in range(abs(layer_count)): LayerRecord.read *)
+  read_record dec_s v s = Ok (a, s') -> (length s' + 43 <= length s)%nat.
+Proof. exact CostThms.layer_record_progress. Qed.
+Print Assumptions layer_record_progress.
+Theorem channel_data_progress : forall n s a s',            (* for c in channel_info: ChannelData.read(fp, c.length - 2) *)
+  read_channel_data n s = Ok (a, s') -> (length s' + 2 <= length s)%nat.
+Proof. exact CostThms.channel_data_progress. Qed.
+Print Assumptions channel_data_progress.
+Theorem image_resource_progress : forall dec_s s a s',      (* while is_readable(fp, 4): ImageResource.read *)
+  read_resource dec_s s = Ok (a, s') -> (length s' + 11 <= length s)%nat.
+Proof. exact CostThms.image_resource_progress. Qed.
+Print Assumptions image_resource_progress.
+Theorem blending_range_progress : forall s a s',            (* while is_readable(fp, 8): read_channel_range *)
+  read_range s = Ok (a, s') -> (length s' + 8 <= length s)%nat.
+Proof. exact CostThms.blending_range_progress. Qed.
+Print Assumptions blending_range_progress.
+Theorem mask_params_progress : forall s a s',
+  read_mask_params s = Ok (a, s') -> (length s' + 1 <= length s)%nat.
+Proof. exact CostThms.mask_params_progress. Qed.
+Print Assumptions mask_params_progress.
+Theorem tagged_block_progress : forall v pad s b s',        (* while is_readable(fp, 8): TaggedBlock.read *)
+  read_tagged_block v pad s = Ok (Some (b, s')) -> (length s' + 12 <= length s)%nat.
+Proof. exact CostThms.tagged_block_progress. Qed.
+Print Assumptions tagged_block_progress.
+(* The readers that CAN succeed without consuming, exactly: TaggedBlock.read on an invalid signature (None: the loop
+   breaks), ChannelDataList.read for a record without channels (the loop runs over the records already read:
+   layer_count_bounded), GlobalLayerMaskInfo.read leaving a short block unread (not in a loop). *)
+Theorem tagged_block_none_stops : forall f v pad budget s,
+  read_tagged_block v pad s = Ok None -> read_tagged_items (S f) v pad budget s = Ok ([], s).
+Proof. exact CostThms.tagged_block_none_stops. Qed.
+Print Assumptions tagged_block_none_stops.
+Theorem layer_count_bounded : forall dec_s v s li s',
+  read_li_body dec_s v s = Ok (li, s') ->
+  exists recs, li_records li = Some recs /\ Z.of_nat (length recs) = Z.abs (li_count li) /\
+               (43 * length recs + 2 + length s' <= length s)%nat.
+Proof. exact CostThms.layer_count_bounded. Qed.
+Print Assumptions layer_count_bounded.
+Theorem glmi_progress : forall s g s',
+  read_glmi s = Ok (g, s') -> (s' = s /\ g = glmi_empty) \/ (length s' + 4 <= length s)%nat.
+Proof. exact CostThms.glmi_progress. Qed.
+Print Assumptions glmi_progress.
+(* the count-driven loop of Psd/Model.v (read_n) over ANY item reader with progress p: a declared count is
+   satisfiable only if count * p bytes are there *)
+Theorem count_loop_bounded : forall A (rd : stream -> res (A * stream)) (p n : nat),
+  (forall s a s', rd s = Ok (a, s') -> (length s' + p <= length s)%nat) ->
+  forall s l s', read_n n rd s = Ok (l, s') -> length l = n /\ (length s' + n * p <= length s)%nat.
+Proof. exact @CostThms.count_loop_bounded. Qed.
+Print Assumptions count_loop_bounded.
+(* descriptor family: every value reader consumes >= 1 byte, an item >= 9, a list element >= 5 *)
+Theorem descriptor_value_progress : forall units fuel t os s d t' s',
+  read_dval units fuel t os s = Ok (d, t', s') -> (length s' + 1 <= length s)%nat.
+Proof. exact CostThms.descriptor_value_progress. Qed.
+Print Assumptions descriptor_value_progress.
+Theorem descriptor_items_progress : forall units fuel n t s r s',      (* descriptor.py:87 for _ in range(count) *)
+  read_items (read_dval units fuel) n t s = Ok (r, s') -> (length s' + 9 * n <= length s)%nat.
+Proof. exact CostThms.descriptor_items_progress. Qed.
+Print Assumptions descriptor_items_progress.
+Theorem descriptor_list_items_progress : forall units fuel n t s r s', (* descriptor.py:226 for _ in range(count) *)
+  read_list_items (read_dval units fuel) n t s = Ok (r, s') -> (length s' + 5 * n <= length s)%nat.
+Proof. exact CostThms.descriptor_list_items_progress. Qed.
+Print Assumptions descriptor_list_items_progress.
+Theorem effect_items_progress : forall n s r s',                       (* effects_layer.py:423 for _ in range(count) *)
+  read_effect_items n s = Ok (r, s') -> (length s' + 12 * n <= length s)%nat.
+Proof. exact CostThms.effect_items_progress. Qed.
+Print Assumptions effect_items_progress.
+Theorem vmal_channels_bounded : forall s v s',                         (* patterns.py:153 for _ in range(num_channels + 2) *)
+  read_vmal s = Ok (v, s') -> (4 * length (vl_channels v) + 28 + length s' <= length s)%nat.
+Proof. exact CostThms.vmal_channels_bounded. Qed.
+Print Assumptions vmal_channels_bounded.
+
+(* ---- 2. the whole-file reader on ANY byte string: total, with enough fuel, and linear cost *)
+(* every outcome is a document or IOError / ValueError / AssertionError / an error of the charset decoder: never
+   OutOfFuel (the fuel Model.read_psd passes to its loops, S (length data), is always sufficient), never IndexError *)
+Theorem read_psd_total : forall dec_s b,
+  (exists d, read_psd dec_s b = Ok d) \/
+  (exists e, read_psd dec_s b = Err e /\
+             ((e = IOErr \/ e = ValueErr \/ e = AssertErr) \/ exists x, dec_s x = Err e)).
+Proof. exact CostTotal.read_psd_total. Qed.
+Print Assumptions read_psd_total.
+Theorem read_psd_fuel_sufficient : forall dec_s b,
+  (forall x, dec_s x <> Err OutOfFuel) -> read_psd dec_s b <> Err OutOfFuel.
+Proof. exact CostTotal.read_psd_fuel_sufficient. Qed.
+Print Assumptions read_psd_fuel_sufficient.
+Example decoder_hyp : forall x, raw_codec x <> Err OutOfFuel.
+Proof. intros x. unfold raw_codec. destruct (forallb byteb x); discriminate. Qed.
+(* an accepted file has a valid header (signature, version, channels, size, depth, colour mode) *)
+Theorem read_psd_header_valid : forall dec_s b d, read_psd dec_s b = Ok d ->
+  let h := p_header d in
+  h_sig h = sig_8BPS /\ (h_version h = 1 \/ h_version h = 2) /\ 1 <= h_channels h <= 56 /\
+  1 <= h_height h <= 300000 /\ 1 <= h_width h <= 300000 /\
+  (h_depth h = 1 \/ h_depth h = 8 \/ h_depth h = 16 \/ h_depth h = 32) /\ In (h_mode h) model_color_modes.
+Proof. intros dec_s b d H. apply CostThms.header_valid_spec. exact (CostThms.read_psd_header_valid dec_s b d H). Qed.
+Print Assumptions read_psd_header_valid.
+
+(* The instrumented twin (Malformed/CostTwin.v: same structure, one tick per fp.read call of the real code and per
+   loop iteration) returns what read_psd returns, and its tick count is linear in the data with c = 2, k = 1 -
+   whatever counts and lengths the bytes declare. *)
+Theorem twin_same_result : forall dec_s b, fst (read_psd_t W_ticks dec_s b) = read_psd dec_s b.
+Proof. exact CostThms.twin_same_result. Qed.
+Print Assumptions twin_same_result.
+Theorem read_psd_cost : forall dec_s b, ticks (read_psd_t W_ticks dec_s b) <= 2 * Z.of_nat (length b) + 1.
+Proof. exact CostThms.read_psd_cost. Qed.
+Print Assumptions read_psd_cost.
+Example cost_tight_on_empty : ticks (read_psd_t W_ticks raw_codec []) = 2 * 0 + 1.
+Proof. vm_compute. reflexivity. Qed.
+(* a complete minimal document (header, three empty sections, raw image data): 9 reads, no iteration, 41 bytes returned *)
+Definition minimal_psd : list Z :=
+  [56;66;80;83; 0;1; 0;0;0;0;0;0; 0;1; 0;0;0;1; 0;0;0;1; 0;8; 0;1] ++ [0;0;0;0] ++ [0;0;0;0] ++ [0;0;0;0] ++ [0;0; 7].
+Example cost_minimal : observe_cost minimal_psd = [0; 9; 0; 41].
+Proof. vm_compute. reflexivity. Qed.
+(* a layer count of 32767 over no data: one failed record read, not 32767 iterations *)
+Example cost_overdeclared_layers :
+  observe_cost ([56;66;80;83; 0;1; 0;0;0;0;0;0; 0;1; 0;0;0;1; 0;0;0;1; 0;8; 0;1] ++ [0;0;0;0] ++ [0;0;0;0]
+                ++ [0;0;0;6] ++ [0;0;0;2] ++ [127;255]) = [err_code IOErr; 10; 1; 44].
+Proof. vm_compute. reflexivity. Qed.
+
+(* ---- 3. allocation *)
+(* every modelled fp.read returns at most the bytes that are left - whatever length was declared *)
+Theorem read_exact_alloc : forall n s a r, take n s = Ok (a, r) -> (length a <= length s)%nat.
+Proof. exact CostThms.read_exact_alloc. Qed.
+Print Assumptions read_exact_alloc.
+Theorem read_lenient_alloc : forall n s, (length (fst (read_upto n s)) <= length s)%nat.
+Proof. exact CostThms.read_lenient_alloc. Qed.
+Print Assumptions read_lenient_alloc.
+Theorem length_block_alloc : forall pre nb pad s d r,
+  read_length_block pre nb pad s = Ok (d, r) -> (length d + pre + nb + length r <= length s)%nat.
+Proof. exact CostThms.length_block_alloc. Qed.
+Print Assumptions length_block_alloc.
+(* ... and ALL the bytes returned by ALL reads of the whole-file reader (peeks of is_readable, blocks re-read as
+   sub-streams, what a section reader looks at past its declared end) are at most six times the file *)
+Theorem read_psd_bytes : forall dec_s b, ticks (read_psd_t W_bytes dec_s b) <= 6 * Z.of_nat (length b).
+Proof. exact CostThms.read_psd_bytes. Qed.
+Print Assumptions read_psd_bytes.
+
+(* ---- payload readers: the fuel is sufficient on ANY bytes *)
+Theorem dblock_fuel_sufficient : forall units two t s, read_dblock units two t s <> Err OutOfFuel.
+Proof. exact CostDescr.dblock_fuel_sufficient. Qed.
+Print Assumptions dblock_fuel_sufficient.
+Theorem leaf_fuel_sufficient : forall k s, read_leaf k s <> Err OutOfFuel.
+Proof. exact CostDescr.leaf_fuel_sufficient. Qed.
+Print Assumptions leaf_fuel_sufficient.
+Theorem patterns_fuel_sufficient : forall dec_s s,
+  (forall x, dec_s x <> Err OutOfFuel) -> read_patterns dec_s (S (length s)) s <> Err OutOfFuel.
+Proof.
+  intros dec_s s Hd H. destruct (CostDescr.patterns_tot dec_s (S (length s)) s (Nat.lt_succ_diag_r _) _ H) as [[C|[C|C]]|[x C]];
+    try discriminate C. exact (Hd x C).
+Qed.
+Print Assumptions patterns_fuel_sufficient.
+
+(* NOT proved (partial): the cost twin covers the container model only - payload parsers (descriptors, effects,
+   patterns, engine data, ...) have progress and fuel theorems above but no tick-count theorem; and the decode-time
+   code (decompression, PIL/numpy buffers sized by the header geometry) is outside the model: see the allocation
+   streams of harness/vh/c06.py.
+   read_psd_cost_partial would be: ticks of PSDImage.open incl. payload parsing <= c * length b + k. *)
